@@ -67,7 +67,13 @@ def prove(run):
                     lists = lists[::3] + lists[-6:]
                 for lst in lists:
                     nlists += 1
-                    fast = a.expectations([mpos[i] for i in lst], opt=True)
+                    try:
+                        fast = a.expectations([mpos[i] for i in lst], opt=True)
+                    except Exception as e:     # the code under test raised on symbolic tensors: a violated totality clause, not a checker error
+                        from vk.symx.harness import decide_true
+                        decide_true(run, f"post:Mps.expectations:total{lst}@{tag}", "Mps.expectations", False,
+                                    f"expectations(list, opt=True) raised {type(e).__name__}: {e}", dict(case, list=lst), fields={"list": lst})
+                        continue
                     slow = np.array([Poly.coerce(singles[i]) for i in lst], dtype=object)
                     # batch convention: real parts iff ALL imaginary parts vanish
                     full = [vdot(v, dens[i].dot(v)) for i in lst]
@@ -76,9 +82,14 @@ def prove(run):
                     decide(run, f"post:Mps.expectations:fast_path_is_dense_form{lst}@{tag}", "Mps.expectations", np.asarray(fast, dtype=object), ref, case,
                            fields={"list": lst})
                 lst = [0, 2, 0, 1]
-                fast = a.expectations([mpos[i] for i in lst], self_conj=phi.conj(), opt=True)
-                full = [vdot(w, dens[i].dot(v)) for i in lst]
-                allreal = all(not f.imag for f in full)
-                decide(run, f"post:Mps.expectations:transition_amplitudes{lst}@{tag}", "Mps.expectations", np.asarray(fast, dtype=object),
-                       np.array([f.real if allreal else f for f in full], dtype=object), case)
+                try:
+                    fast = a.expectations([mpos[i] for i in lst], self_conj=phi.conj(), opt=True)
+                    full = [vdot(w, dens[i].dot(v)) for i in lst]
+                    allreal = all(not f.imag for f in full)
+                    decide(run, f"post:Mps.expectations:transition_amplitudes{lst}@{tag}", "Mps.expectations", np.asarray(fast, dtype=object),
+                           np.array([f.real if allreal else f for f in full], dtype=object), case)
+                except Exception as e:
+                    from vk.symx.harness import decide_true
+                    decide_true(run, f"post:Mps.expectations:total{lst}@{tag}", "Mps.expectations", False,
+                                f"expectations(list, self_conj, opt=True) raised {type(e).__name__}: {e}", dict(case, list=lst))
     run.extra.setdefault("symx", {})["C07"] = {"operator_lists_decided": nlists, "shims": SH.SHIMS}
